@@ -1,33 +1,43 @@
 ------------------------------- MODULE MC_Wrap -------------------------------
 (* Exhaustive bounded model for C16: every text of up to MaxLen graphemes   *)
 (* over the class alphabet {letter, letter+combining mark, space, hyphen,   *)
-(* newline, wide ideograph, wide closing punctuation} and every width       *)
-(* 0..MaxWidth is wrapped by the transcribed scanner (WrapScan) and the     *)
-(* result judged by the oracle (WrapRel).  Break opportunities follow a     *)
-(* pairwise abridgement of UAX #14 (LB4-7, LB13, LB18, LB21, LB28, LB31).   *)
+(* newline, wide ideograph, wide closing punctuation, wide opening          *)
+(* punctuation, no-break space} (constant Classes picks a subset) and every *)
+(* width 0..MaxWidth is wrapped by the transcribed scanner (WrapScan) and   *)
+(* the result judged by the oracle (WrapRel).  Break opportunities follow   *)
+(* an abridgement of UAX #14 (LB4-7, LB12, LB12a, LB13, LB14, LB18, LB21,   *)
+(* LB28, LB31).  RLAgrees: the run-length oracle (WrapRelRL) gives the      *)
+(* verdict of WrapRel on the scanner's lines and on damaged copies of them. *)
 (* ASSUMEs are unit checks of the oracle itself (it must reject outputs     *)
 (* that lose, reorder, overflow, split or ignore a break).                  *)
 EXTENDS WrapScan, TLC
-CONSTANTS MaxLen, MaxWidth
+CONSTANTS MaxLen, MaxWidth, Classes
 
-\* classes: 1 letter, 2 letter+mark, 3 space, 4 hyphen, 5 newline, 6 ideograph, 7 wide closing punct
-Classes == 1..7
-CW(c) == IF c \in {6, 7} THEN 2 ELSE IF c = 5 THEN 0 ELSE 1
-CWs(c) == IF c \in {3, 5} THEN 1 ELSE 0
+\* classes: 1 letter, 2 letter+mark, 3 space, 4 hyphen, 5 newline, 6 ideograph, 7 wide closing punct,
+\* 8 wide opening punct (glued to what follows), 9 no-break space (white space, glued on both sides)
+CW(c) == IF c \in {6, 7, 8} THEN 2 ELSE IF c = 5 THEN 0 ELSE 1
+CWs(c) == IF c \in {3, 5, 9} THEN 1 ELSE 0
 CNl(c) == IF c = 5 THEN 1 ELSE 0
 CLt(c) == IF c \in {1, 2} THEN 1 ELSE 0
-\* no break opportunity between class x and following class y
-Glue(x, y) ==
+\* class of the nearest grapheme before position i that is not a space (0 = none)
+RECURSIVE Before(_, _)
+Before(s, i) == IF i < 1 THEN 0 ELSE IF s[i] = 3 THEN Before(s, i - 1) ELSE s[i]
+\* no break opportunity between position i and position i + 1
+Glue(s, i) ==
+  LET x == s[i]  y == s[i + 1] IN
   IF x = 5 THEN FALSE                 \* LB4/5 break after a hard break
   ELSE IF y \in {3, 5} THEN TRUE      \* LB6/7 never before newline or space
+  ELSE IF x = 9 THEN TRUE             \* LB12 never after a no-break space
+  ELSE IF y = 9 /\ x \notin {3, 4} THEN TRUE   \* LB12a nor before it, except after space or hyphen
   ELSE IF y = 7 THEN TRUE             \* LB13 never before closing punctuation, even after spaces
+  ELSE IF Before(s, i) = 8 THEN TRUE  \* LB14 never after opening punctuation, even after spaces
   ELSE IF x = 3 THEN FALSE            \* LB18 break after spaces
   ELSE IF y = 4 THEN TRUE             \* LB21 never before a hyphen
   ELSE IF x \in {1, 2} /\ y \in {1, 2} THEN TRUE   \* LB28
   ELSE FALSE                          \* LB31
-Facts(cls) == [i \in 1..Len(cls) |->
-   <<10 * i + cls[i], CW(cls[i]), CWs(cls[i]), CNl(cls[i]), CLt(cls[i]),
-     IF i < Len(cls) /\ Glue(cls[i], cls[i + 1]) THEN 1 ELSE 0, i % 3>>]
+Facts(s) == [i \in 1..Len(s) |->
+   <<10 * i + s[i], CW(s[i]), CWs(s[i]), CNl(s[i]), CLt(s[i]),
+     IF i < Len(s) /\ Glue(s, i) THEN 1 ELSE 0, i % 3>>]
 
 VARIABLES cls, width
 vars == <<cls, width>>
@@ -40,6 +50,37 @@ Verdict == LET inp == Facts(cls)
            IN Why(inp, width, r.done, r.lines)
 \* width 0 emits nothing (recorded finding); everything else must satisfy the oracle
 Holds == Verdict = "" \/ (width = 0 /\ Verdict \in {"conserve:w0", "hardbreak:w0"})
+
+\* ---- the run-length oracle agrees with the oracle -----------------------------
+RL == INSTANCE WrapRelRL
+\* the same texts with one grapheme per class (so that neighbours can be equal) and a style per pair
+FactsSame(s) == [i \in 1..Len(s) |->
+   <<s[i], CW(s[i]), CWs(s[i]), CNl(s[i]), CLt(s[i]), IF i < Len(s) /\ Glue(s, i) THEN 1 ELSE 0, (i - 1) \div 2>>]
+\* maximal items / one item per grapheme
+RECURSIVE Pack(_)
+Pack(q) == IF q = <<>> THEN <<>>
+           ELSE LET r == Pack(Tail(q))  x == Head(q) IN
+                IF r # <<>> /\ SubSeq(r[1], 1, Len(x)) = x
+                THEN <<Append(x, r[1][Len(x) + 1] + 1)>> \o Tail(r)
+                ELSE <<Append(x, 1)>> \o r
+Ones(q) == [i \in 1..Len(q) |-> Append(q[i], 1)]
+\* the lines and damaged copies of them: last grapheme of the first line lost, first two graphemes of
+\* the first line swapped, first line ended after its first grapheme, first two lines joined
+Damaged(ls) ==
+  {ls}
+  \cup (IF ls # <<>> /\ Len(ls[1]) >= 1
+        THEN {<<SubSeq(ls[1], 1, Len(ls[1]) - 1)>> \o Tail(ls),
+              <<SubSeq(ls[1], 1, 1), SubSeq(ls[1], 2, Len(ls[1]))>> \o Tail(ls)} ELSE {})
+  \cup (IF ls # <<>> /\ Len(ls[1]) >= 2
+        THEN {<<(<<ls[1][2], ls[1][1]>> \o SubSeq(ls[1], 3, Len(ls[1])))>> \o Tail(ls)} ELSE {})
+  \cup (IF Len(ls) >= 2 THEN {<<ls[1] \o ls[2]>> \o SubSeq(ls, 3, Len(ls))} ELSE {})
+RLAgrees ==
+  LET inp == FactsSame(cls)
+      r == Lines(inp, width)
+  IN \A ls \in Damaged(r.lines) : \A done \in {r.done, FALSE} :
+       LET y == Why0(inp, width, done, ls) IN
+       /\ RL!Why0(Pack(inp), width, done, [i \in 1..Len(ls) |-> Pack(ls[i])]) = y
+       /\ RL!Why0(Ones(inp), width, done, [i \in 1..Len(ls) |-> Ones(ls[i])]) = y
 
 \* ---- oracle unit checks ---------------------------------------------------
 a == <<1, 1, 0, 0, 1, 1, 0>>   b == <<2, 1, 0, 0, 1, 1, 0>>   c == <<3, 1, 0, 0, 1, 0, 0>>
@@ -66,6 +107,28 @@ ASSUME Why(<<nl, c>>, 5, TRUE, <<<<>>, <<Lc>>>>) = ""
 ASSUME Why(<<c, nl>>, 5, TRUE, <<<<Lc>>>>) = ""
 ASSUME Why(<<nl>>, 5, TRUE, <<>>) = "hardbreak"
 ASSUME Why(<<c>>, 0, TRUE, <<>>) = "conserve:w0"
+\* the run-length oracle on texts too long for the other one (item = <<g, w, ws, nl, lt, gl, st, n>>)
+ra(n) == <<1, 1, 0, 0, 1, 1, 0, n>>   rz(n) == <<1, 1, 0, 0, 1, 0, 0, n>>   rsp(n) == <<0, 1, 1, 0, 0, 0, 0, n>>
+rnl == <<9, 0, 1, 1, 0, 0, 0, 1>>     rwd(n) == <<5, 2, 0, 0, 0, 0, 0, n>>
+Ra(n) == <<1, 1, 0, 0, n>>  Rsp(n) == <<0, 1, 1, 0, n>>  Rwd(n) == <<5, 2, 0, 0, n>>
+ASSUME RL!Why0(<<ra(69999), rz(1)>>, 30000, TRUE, <<<<Ra(30000)>>, <<Ra(30000)>>, <<Ra(10000)>>>>) = ""
+ASSUME RL!Why0(<<ra(69999), rz(1)>>, 30000, FALSE, <<<<Ra(30000)>>, <<Ra(30000)>>, <<Ra(10000)>>>>) = "nonterm"
+ASSUME RL!Why0(<<ra(69999), rz(1)>>, 30000, TRUE, <<<<Ra(30000)>>, <<Ra(30000)>>, <<Ra(9999)>>>>) = "conserve"
+ASSUME RL!Why0(<<ra(69999), rz(1)>>, 30000, TRUE, <<<<Ra(70000)>>>>) = "width"
+ASSUME RL!Why0(<<ra(69999), rz(1)>>, 30000, TRUE, <<<<Ra(30001)>>, <<Ra(30000)>>, <<Ra(9999)>>>>) = "width"
+ASSUME RL!Why0(<<ra(2), rsp(70000), rz(1)>>, 10, TRUE, <<<<Ra(2), Rsp(70000)>>, <<Ra(1)>>>>) = ""
+ASSUME RL!Why0(<<ra(2), rsp(70000), rz(1)>>, 10, TRUE, <<<<Ra(2), Rsp(70000), Ra(1)>>>>) = "width"
+ASSUME RL!Why0(<<ra(39999), rz(1)>>, 50000, TRUE, <<<<Ra(20000)>>, <<Ra(20000)>>>>) = "letters"
+ASSUME RL!Why0(<<ra(39999), rz(1), ra(1), rz(1)>>, 50000, TRUE, <<<<Ra(40000)>>, <<Ra(2)>>>>) = ""
+ASSUME RL!Why0(<<ra(39999), rz(1), ra(1), rz(1)>>, 50000, TRUE, <<<<Ra(40001)>>, <<Ra(1)>>>>) = "letters"
+ASSUME RL!Why0(<<rwd(40000)>>, 65535, TRUE, <<<<Rwd(32767)>>, <<Rwd(7233)>>>>) = ""
+ASSUME RL!Why0(<<rwd(40000)>>, 65535, TRUE, <<<<Rwd(32768)>>, <<Rwd(7232)>>>>) = "width"
+ASSUME RL!Why0(<<rwd(1)>>, 1, TRUE, <<<<Rwd(1)>>>>) = ""
+ASSUME RL!Why0(<<rwd(2)>>, 1, TRUE, <<<<Rwd(2)>>>>) = "width"
+ASSUME RL!Why0(<<ra(39999), rz(1), rnl, rz(1)>>, 50000, TRUE, <<<<Ra(40000)>>, <<Ra(1)>>>>) = ""
+ASSUME RL!Why0(<<ra(39999), rz(1), rnl, rz(1)>>, 50000, TRUE, <<<<Ra(40001)>>>>) = "hardbreak"
+ASSUME RL!Why0(<<ra(39999), rz(1), rnl, rnl, rz(1)>>, 50000, TRUE, <<<<Ra(40000)>>, <<Ra(1)>>>>) = "hardbreak"
+ASSUME RL!Why0(<<ra(39999), rz(1), rnl, rnl, rz(1)>>, 50000, TRUE, <<<<Ra(40000)>>, <<>>, <<Ra(1)>>>>) = ""
 ASSUME DrawOK(<<<<Lc, Lsp, Lwd>>, <<>>>>, <<<< <<3, 1, 0>>, <<0, 1, 0>>, <<5, 2, 0>>, <<0, 0, 0>> >>, << <<0, 0, 0>>, <<0, 0, 0>>, <<0, 0, 0>>, <<0, 0, 0>> >>>>, 4, 2)
 ASSUME ~DrawOK(<<<<Lc, Lsp, Lwd>>>>, <<<< <<3, 1, 0>>, <<5, 2, 0>>, <<0, 0, 0>>, <<0, 0, 0>> >>>>, 4, 1)
 ASSUME ~DrawOK(<<<<Lc>>, <<Ld>>>>, <<<< <<3, 1, 0>>, <<4, 1, 0>> >>>>, 2, 1)
